@@ -17,17 +17,17 @@ EXAMPLES = sorted(glob.glob(os.path.join(REPO, "floogen", "examples", "*.yml")))
 # per property: generator restrictions and case counts (quick, thorough)
 CONFIG = {
     "C01": dict(algos=None, families=None, n=(250, 4000), derived_sweep=True),
-    "C02": dict(algos=["ID"], families=["star", "mesh", "meshx", "tree", "custom"], n=(200, 3000), perms=True, derived_sweep=True, topo_sweep=True),
-    "C03": dict(algos=["SRC"], families=["star", "mesh", "meshx", "tree", "custom"], n=(200, 3000), perms=True, derived_sweep=True, topo_sweep=True),
+    "C02": dict(algos=["ID"], families=["star", "mesh", "meshx", "tree", "custom"], n=(200, 3000), perms=True, derived_sweep=True, topo_sweep=True, inject=2),
+    "C03": dict(algos=["SRC"], families=["star", "mesh", "meshx", "tree", "custom"], n=(200, 3000), perms=True, derived_sweep=True, topo_sweep=True, inject=2),
     "C04": dict(algos=["XY"], families=["mesh"], n=(200, 3000), xy_sweep=True, skip_xy_offset=True),
-    "C05": dict(algos=None, families=None, n=(250, 4000), perms=True, topo_sweep=True, overfull_sweep=True),
-    "C06": dict(algos=None, families=None, n=(250, 4000), topo_sweep=True, overfull_sweep=True),
-    "C07": dict(algos=None, families=None, n=(250, 4000), perms=True, derived_sweep=True),
-    "C08": dict(algos=None, families=None, n=(250, 4000)),
+    "C05": dict(algos=None, families=None, n=(250, 4000), perms=True, topo_sweep=True, overfull_sweep=True, inject=5),
+    "C06": dict(algos=None, families=None, n=(250, 4000), topo_sweep=True, overfull_sweep=True, inject=4),
+    "C07": dict(algos=None, families=None, n=(250, 4000), perms=True, derived_sweep=True, inject=2),
+    "C08": dict(algos=None, families=None, n=(250, 4000), inject=2),
     "C09": dict(algos=["ID", "SRC"], families=["mesh", "tree"], n=(150, 1500), mesh_sweep=True),
-    "C11": dict(algos=None, families=None, n=(150, 2000)),
-    "C12": dict(algos=None, families=None, n=(200, 2000), size_sweep=True, derived_sweep=True),
-    "C13": dict(algos=None, families=None, n=(250, 4000), derived_sweep=True),
+    "C11": dict(algos=None, families=None, n=(150, 2000), inject=3),
+    "C12": dict(algos=None, families=None, n=(200, 2000), size_sweep=True, derived_sweep=True, inject=3, topo_sweep=True),
+    "C13": dict(algos=None, families=None, n=(250, 4000), derived_sweep=True, inject=2, degree_sweep=True),
     "C14": dict(algos=["ID", "SRC"], families=["star", "mesh", "meshx", "tree", "custom"], n=(200, 3000), chain_sweep=True, topo_sweep=True),
 }
 
@@ -120,6 +120,20 @@ def sweep_cases(pid, tier, rng):
                         if v != 1:
                             cfg["routing"].pop("use_id_table", None)      # the default: table in use
                         out.append((f"derived:{algo}:{k}={v}", cfg))
+    if conf.get("degree_sweep"):
+        for algo in ["XY", "ID", "SRC"]:
+            for degree in [4, 6, 7]:
+                cfg = gen_desc.gen_degree_mesh(rng, algo, rng.choice(["axi", "narrow-wide"]), degree)
+                if cfg:
+                    out.append((f"degree:{algo}:{degree}", cfg))
+            for tl in ([False, True] if algo != "XY" or True else [False]):
+                cfg = gen_desc.gen_star(rng, algo, "axi") if algo != "XY" else gen_desc.gen_mesh(rng, algo, "axi", m=2, n=2, sides=[], partial_local=False)
+                if cfg and tl:
+                    cfg = json.loads(json.dumps(cfg))
+                    cfg["routing"]["use_id_table"] = False
+                    if algo == "ID":
+                        cfg["routing"]["addr_offset_bits"] = 16
+                    out.append((f"tableless:{algo}", cfg))
     if conf.get("overfull_sweep"):
         for algo in ["XY", "ID", "SRC"]:
             for degree in ([3, 4, 5] if big else [3, 4]):
@@ -131,7 +145,8 @@ def sweep_cases(pid, tier, rng):
         for algo in conf["algos"] or ["ID", "SRC"]:
             if algo == "XY":
                 continue
-            shapes = [("torus", 3, 1), ("torus", 4, 2), ("hub", 6, 0), ("hub", 4, 0), ("bypass", 3, 0)]
+            shapes = [("torus", 3, 1), ("torus", 4, 2), ("hub", 6, 0), ("hub", 4, 0), ("bypass", 3, 0), ("handtree", 0, 0),
+                      ("ring-eject", 4, 0), ("hub-bypass", 3, 6), ("chain-xbar", 5, 8)]
             if big:
                 shapes += [("torus", 5, 1), ("torus", 3, 3), ("hub", 7, 0), ("bypass", 2, 0)]
             for kind, a, b in shapes:
@@ -140,6 +155,14 @@ def sweep_cases(pid, tier, rng):
                     cfg = gen_desc.gen_torus(rng, algo, nt, a, b)
                 elif kind == "hub":
                     cfg = gen_desc.gen_chain_hub(rng, algo, nt, a)
+                elif kind == "handtree":
+                    cfg = gen_desc.gen_tree_manual(rng, algo, nt)
+                elif kind == "ring-eject":
+                    cfg = gen_desc.gen_ring_eject(rng, algo, nt, a)
+                elif kind == "hub-bypass":
+                    cfg = gen_desc.gen_hub_bypass(rng, algo, nt, a, b)
+                elif kind == "chain-xbar":
+                    cfg = gen_desc.gen_chain_xbar(rng, algo, nt, a, b)
                 else:
                     cfg = gen_desc.gen_tree_bypass(rng, algo, nt, a)
                 if cfg:
@@ -313,7 +336,7 @@ class NetRunner:
         import collections
         drv = lean.Driver()
         # descriptions without address table only where the property does not speak about decoding or routing by it
-        gen_desc.ALLOW_NO_TABLE = pid in ("C05", "C06", "C11", "C12")
+        gen_desc.ALLOW_NO_TABLE = pid in ("C05", "C06", "C11", "C12", "C13")
         gen_desc.SHORT_DEGREE = pid in ("C05", "C06")
         stats = collections.Counter()
         dist = collections.Counter()
@@ -375,6 +398,14 @@ class NetRunner:
                              "detail": "a description whose expanded ranges overlap is accepted and files are emitted"}
                         rep.finding(f, {"property": pid, "finding": f, "cfg": bad, "case": name})
                     break
+            if CONFIG[pid].get("inject") and "injected" not in meta and time.time() - t0 < budget_s * 0.8:
+                # descriptions the unchanged generator refuses: if a changed one accepts them, its output is checked too
+                import malformed
+                variants = list(malformed.inject_all(cfg)) + list(malformed.extra_negative(cfg))
+                irng = random.Random(h)
+                for cls, site, bad in irng.sample(variants, min(CONFIG[pid]["inject"], len(variants))):
+                    stats["injected-variants"] += 1
+                    handle(f"{name}+{cls}@{site}", {"family": meta.get("family", "?"), "injected": cls}, bad)
             if len(samples) < 3 and not fs:
                 samples.append({"case": name, "endpoints": [e["name"] + str(e.get("array", "")) for e in cfg["endpoints"]],
                                 "routers": cfg["routers"], "algo": cfg["routing"]["route_algo"],
